@@ -454,7 +454,7 @@ pub struct FxPlan {
     pub app_console: bool,
     /// Use the deprecated 'date' column name for the settlement date.
     pub app_legacy_date: bool,
-    /// --date-fmt: 0 = default ([year]-[month]-[day]); 1 = [month]/[day]/[year]; 2 = [day].[month].[year]
+    /// --date-fmt: 0 = default ([year]-[month]-[day]); 1 = [month]/[day]/[year]; 2 = [day].[month].[year]; 3 = [year]-[day]-[month]
     pub app_date_fmt: u8,
     pub net_faults: Vec<Option<String>>,
     /// The server's date when it differs from the process's clock (a clock set ahead): the
@@ -513,12 +513,14 @@ pub fn app_csv(rows: &[AppRow]) -> String {
     app_csv_from(rows, 0, false)
 }
 
-pub const DATE_FMTS: [&str; 3] = ["[year]-[month]-[day]", "[month]/[day]/[year]", "[day].[month].[year]"];
+pub const DATE_FMTS: [&str; 4] = ["[year]-[month]-[day]", "[month]/[day]/[year]", "[day].[month].[year]", "[year]-[day]-[month]"];
 
 fn fmt_date(d: Date, date_fmt: u8) -> String {
     match date_fmt {
         1 => format!("{:02}/{:02}/{}", d.month() as u8, d.day(), d.year()),
         2 => format!("{:02}.{:02}.{}", d.day(), d.month() as u8, d.year()),
+        // looks like the standard format with day and month swapped
+        3 => format!("{}-{:02}-{:02}", d.year(), d.day(), d.month() as u8),
         _ => d.to_string(),
     }
 }
@@ -624,7 +626,7 @@ pub fn run_fx_process(plan: FxPlan) -> FxObs {
                     .enumerate()
                     .map(|(fi, chunk)| acb::util::rw::DescribedReader::from_string(format!("sim{}.csv", fi), app_csv_fmt(chunk, fi * per, app_legacy_date, app_date_fmt)))
                     .collect();
-                let parse_opts = acb::portfolio::io::tx_csv::TxCsvParseOptions { date_format: if app_date_fmt == 0 { None } else { Some(acb::util::date::parse_dyn_date_format(DATE_FMTS[app_date_fmt as usize % 3]).expect("harness date format")) } };
+                let parse_opts = acb::portfolio::io::tx_csv::TxCsvParseOptions { date_format: if app_date_fmt == 0 { None } else { Some(acb::util::date::parse_dyn_date_format(DATE_FMTS[app_date_fmt as usize % 4]).expect("harness date format")) } };
                 if app_console {
                     let mut options = acb::app::Options::default();
                     options.csv_parse_options = acb::portfolio::io::tx_csv::TxCsvParseOptions { date_format: parse_opts.date_format.clone() };
